@@ -14,7 +14,7 @@ KINDS = {
     "C20": ["MembersLostOnRestart", "RemovedStillListed", "MemberMissing", "AddressWrong", "JoinFailed", "RestartFailed", "NodeDied",
             "SearchUnavailable", "PeerUnreachable"],      # every node up, a search through some node fails: a peer hosting a partition is not reached
 }
-SCENARIOS = ["basic", "wiring", "snapshot", "leave", "lagging", "lagging-leave", "joinfail", "lagging-replicas", "joincrash", "rejoin", "leave-boot", "lagging-empty", "dead-leave", "lagging-rejoin", "rejoin-stale", "conf-burst", "lagging-replace", "paused-replace", "rejoin-overtaken"]
+SCENARIOS = ["basic", "wiring", "snapshot", "leave", "lagging", "lagging-leave", "joinfail", "lagging-replicas", "joincrash", "rejoin", "leave-boot", "lagging-empty", "dead-leave", "lagging-rejoin", "rejoin-stale", "conf-burst", "lagging-replace", "paused-replace", "rejoin-overtaken", "snapshot-twice"]
 
 
 def run_scenarios(ctx, repeat, scenarios=None):
